@@ -113,6 +113,23 @@ add('C12', DOCGEN + 'the four delimiter pairs and all named math environments, b
     'inside; each document is replayed on the real parser (text, node kinds and bodies, search).',
     'Bounded budget; brackets directly after ordinary / sizing commands and adjacent "$" regions excluded as the property says.', '7 (C12)')
 
+EDITS = ('Edits.tla reference document model started on the reader machine\'s tree: ')
+add('C05', EDITS + 'TLC enumerates every single structural edit on twin documents and DocGen documents (SpliceLocal as action '
+    'property); replay of each edit on a fresh real parse (target by identity), text / search / text view / descendants compared',
+    'Every (document, target, operation, index, material) combination in scope is enumerated by TLC on the reference model, whose '
+    'locality (splice of exactly the target span) TLC checks; each is replayed on the real tree and the serialised text must equal '
+    'the model\'s.', 'Bounded set of start documents (hand-written twins + DocGen budget 2) and material lists of 1..3 items.', '7 (C05)')
+add('C14', EDITS + 'every single rename / string assignment / argument-list edit; replay on the real tree incl. search for old and new '
+    'names and re-parse of the new text',
+    'TLC enumerates every rename, string assignment and argument-list operation on every command / environment of the start '
+    'documents; each is replayed on the real tree (text, search, views = model) and the new text is re-parsed and compared.',
+    'Bounded start documents; re-parse clause only for names outside the parser\'s tables and argument lists of the documented shape.', '7 (C14)')
+add('C15', EDITS + 'TLC enumerates every history of N edits over all operation kinds; step-by-step replay on the real tree with the '
+    'C03/C04 clauses re-evaluated after every step; EditsTrace.tla validates random long histories recorded from the real tree',
+    'The reference model is the property\'s own yardstick. All histories up to the depth bound are enumerated by TLC and replayed '
+    'step by step; longer random histories chosen from the real tree\'s views are validated by TLC event by event.',
+    'Depth-bounded exhaustive part on small documents; material always freshly parsed.', '7 (C15)')
+
 NOT_YET = 'check not built yet in this round (planned, see DESIGN.md section 7)'
 
 
